@@ -209,7 +209,11 @@ def _on_proxy(exc):
     if isinstance(obj, Proxy):
         return True
     msg = str(exc)
-    return isinstance(exc, AttributeError) and any(("'%s' object has no attribute" % n) in msg for n in ("SStr", "SInt", "SBool", "SReal", "SSeq", "SDict", "SFut"))
+    names = ("SStr", "SInt", "SBool", "SReal", "SSeq", "SDict", "SFut")
+    if isinstance(exc, TypeError) and any(("'%s'" % n) in msg or ("got %s" % n) in msg or ("not %s" % n) in msg for n in names):
+        # a C-level function refused a proxy ("expected string or bytes-like object, got 'SStr'", "... must be str, not SStr"): nothing the real code does with a real value
+        return True
+    return isinstance(exc, AttributeError) and any(("'%s' object has no attribute" % n) in msg for n in names)
 
 
 def _on_harness_double(exc):
